@@ -204,6 +204,9 @@ class DocGen:
         raise ValueError(want)
 
 
+KEYS_TWIN = KEYS + ["'1'", "'0'", "1.5", "'1.5'", "2", "'2'"]   # no Boolean keys: Python's True == 1 conflates them
+
+
 def gen_doc(rng, regime=None, **kw):
     """Returns (yaml_text, regime)."""
     if regime is None:
@@ -227,6 +230,44 @@ HOSTILE = [
     "[{v: 2}, {v: 5}, {w: 9}, {v: 5}, {v: null}]",
     "{a: [{n: 1}, {n: 2}]}",
 ]
+
+
+MERGE_VALUES = ["2.5", "1.0", "'x'", '"5"', "true", "false", "8080", "0", "abc", "x y", "null", "[1, 2]", "{q: 1}",
+                "[]", "{}"]
+MERGE_KEYS = ["ratio", "name", "on", "port", "tags", "opts"]
+
+
+def gen_merge_doc(rng):
+    """A flow-style mapping using YAML merge keys: 1-2 anchored source mappings (often anchored under
+    their own key name, the `defaults: &defaults` idiom), 1-3 mappings inheriting from them with `<<`
+    (overriding some keys, adding others), optionally a list of inheritors and a plain mapping whose
+    keys are spelled like the anchors."""
+    names = rng.sample(["defaults", "base", "common"], rng.choice([1, 1, 2]))
+    anchors, parts, srckeys = [], [], {}
+    for nm in names:
+        keys = rng.sample(MERGE_KEYS, rng.randint(1, 4))
+        an = nm if rng.random() < 0.6 else nm[0].upper() + "1"
+        anchors.append(an)
+        srckeys[an] = keys
+        parts.append("%s: &%s {%s}" % (nm, an, ", ".join("%s: %s" % (k, rng.choice(MERGE_VALUES)) for k in keys)))
+
+    def inheritor():
+        refs = rng.sample(anchors, rng.randint(1, len(anchors)))
+        mk = "<<: *%s" % refs[0] if len(refs) == 1 and rng.random() < 0.8 else "<<: [%s]" % ", ".join("*" + r for r in refs)
+        pool = MERGE_KEYS + ["extra", "id"] + (anchors if rng.random() < 0.3 else [])
+        own = rng.sample(pool, rng.randint(0, 3))
+        items = ["%s: %s" % (k, rng.choice(MERGE_VALUES)) for k in own]
+        items.insert(rng.randint(0, len(items)), mk)
+        return "{%s}" % ", ".join(items)
+    for i in range(rng.randint(1, 3)):
+        parts.append("svc%d: %s" % (i, inheritor()))
+    if rng.random() < 0.4:
+        parts.append("jobs: [%s]" % ", ".join(inheritor() if rng.random() < 0.7 else "{id: %d}" % j
+                                                for j in range(rng.randint(1, 3))))
+    if rng.random() < 0.5:
+        parts.append("plain: {%s}" % ", ".join("%s: %s" % (k, rng.choice(MERGE_VALUES))
+                                                 for k in rng.sample(sorted(set(anchors + names + ["k", "ratio"])), 2)))
+    return "{%s}" % ", ".join(parts)
 
 
 def deep_doc(depth, kind="map"):
